@@ -2,7 +2,9 @@ package ledger
 
 // C08 — Ledger queries answer from the block history, not from flush timing.
 //
-// Engine E-SEQ over the LH driver (common_c08_driver_test.go): BFS over every sequence of
+// Engine E-SEQ over the LH driver (common_c08_driver_test.go: a REAL Ledger on in-memory
+// SQLite, real BlockEvaluator, synchronous tracker flushes, reloadLedger). BFS over every
+// sequence of
 //
 //	block ops   u+ / u~ / u-   create / modify / delete, in one block, the "user" resources:
 //	                           account C (funded / paid / closed), B's holding of asset X
@@ -17,30 +19,43 @@ package ledger
 //	            flushMax       persist everything the configuration allows (latest-MaxAcctLookback)
 //	            reload         Ledger.reloadLedger()
 //
-// up to depth 5 (quick) / 7 (thorough, time-capped), from two initial states (user/owner
-// resources absent / present), for the cache configurations {LRU caches on, off} x
-// {MaxAcctLookback 0, 2}. After EVERY step (also while replaying a prefix, so that cache
-// contents are those of a client that queries all the time) the full query sweep runs:
-// LookupAccount, LookupWithoutRewards, LookupAsset, LookupApplication, GetCreatorForRound,
-// LookupKv for every address / creatable id / box key ever mentioned (plus never-existing
-// ones) at EVERY round 0..latest+1.
+// so every resource kind is created, modified, deleted and RE-created across flush
+// boundaries. Explorations (quick): the whole alphabet to depth 3; the "user" and the
+// "owner" halves (each with pay, flushMax, reload) to depth 5; thorough: halves + flush1 to
+// depth 6, whole alphabet to depth 5, halves to depth 7 (time-capped). Each for
+// MaxAcctLookback 0 and 2, LRU caches on / off, from two initial states (user+owner
+// resources absent / present-but-unflushed), and - with caches on, where lookups have side
+// effects - under two query policies (sweep after every op / after block ops only; see
+// c08SweepAlways...). "LRU on" uses the real cache code with capacity 256 (c08LRUSmall);
+// the upstream capacities (c08LRUReal, ~1 s per OpenLedger) are run to depth 2 (3 thorough).
+//
+// The sweep: LookupAccount, LookupWithoutRewards, LookupAsset, LookupApplication,
+// GetCreatorForRound, LookupKv for every address / creatable id / box key ever mentioned
+// (plus never-existing ones; resources also across types) at EVERY round 0..latest+1.
 //
 // Oracle: a lookup that returns no error must equal R[round] (fold of the evaluator's
 // StateDeltas); every round in [tracker DB round, latest] must be answered; rounds above
 // latest must be refused; validThrough is within [round, latest] and the account did not
 // change in between.
 //
+// Known finding (key C08:cross-type-lookup, findings/C08-cross-type-resource-lookup): a
+// LookupApplication/LookupAsset for an id whose on-disk row is of the other type fails with
+// "lookupResources asked for ..." once the row is neither in the deltas nor in the LRU.
+//
 // Not covered here: the concurrent lookup-vs-commitRound window (needs E-SCHED), the
 // pebbledb backend, catchpoint tracking (disabled), depth beyond the bound.
 //
-// Mutants (bin/mut, all must be DETECTED), see the final report for outcomes:
-//  M1 lruresources.go write(): drop the update of an existing entry      (stale cache entry)
-//  M2 acctupdates.go postCommit: do not write deleted/updated KVs to baseKVs
-//  M3 acctupdates.go postCommit: trim au.deltas by offset-1
-//  M4 acctupdates.go lookupResource: `offset == len(deltas)` shortcut taken for every round
-//  (the DESIGN mutant "drop the persistedData.Round == currentDbRound re-check" is
-//   equivalent in a sequential run: DB round and cached round never differ without a
-//   concurrent commit; it belongs to the E-SCHED part.)
+// Mutants (bin/mut ... --only), outcomes:
+//  M1 lruresources.go write(): never refresh an existing entry               DETECTED (depth 2)
+//  M2 acctupdates.go postCommit: deleted KVs not written to baseKVs          DETECTED (depth 3)
+//  M3 acctupdates.go postCommit: `cnt == macct.ndeltas` -> `<=` (in-memory
+//     account entry dropped although later deltas still modify it)          DETECTED (depth 1)
+//  M4 lruaccts.go write(): stale pending write may overwrite a newer entry
+//     (needs: lookup, flush, NO lookup, next block)                          MISSED by the
+//     sweep-after-every-op policy alone, DETECTED once the sweep-after-blocks policy was added
+//  (DESIGN's "drop the persistedData.Round == currentDbRound re-check" is equivalent in a
+//   sequential run - DB round and cached round never differ without a concurrent commit -
+//   and belongs to the E-SCHED part.)
 
 import (
 	"fmt"
@@ -464,6 +479,7 @@ func TestVerif_C08(t *testing.T) {
 		policy  int
 	}
 	both := []bool{true, false}
+	onlyPresent := []bool{true}
 	var plan []expl
 	add := func(cfgs []c08Cfg, alpha string, mask uint, depth int, present []bool, policy int) {
 		for _, c := range cfgs {
@@ -482,11 +498,11 @@ func TestVerif_C08(t *testing.T) {
 		add(off, "full", c08AlphaFull, 3, both, c08SweepEnd)
 		add(lru, "user", c08AlphaUser, 5, both, c08SweepBlocks)
 		add(lru, "owner", c08AlphaOwner, 5, both, c08SweepBlocks)
-		add(lru, "user", c08AlphaUser, 5, both, c08SweepAlways)
-		add(lru, "owner", c08AlphaOwner, 5, both, c08SweepAlways)
-		add(off, "user", c08AlphaUser, 5, both, c08SweepEnd)
-		add(off, "owner", c08AlphaOwner, 5, both, c08SweepEnd)
-		add(realLRU, "user+owner", userOwner, 2, []bool{true}, c08SweepAlways)
+		add(lru, "user", c08AlphaUser, 5, onlyPresent, c08SweepAlways)
+		add(lru, "owner", c08AlphaOwner, 5, onlyPresent, c08SweepAlways)
+		add(off, "user", c08AlphaUser, 5, onlyPresent, c08SweepEnd)
+		add(off, "owner", c08AlphaOwner, 5, onlyPresent, c08SweepEnd)
+		add(realLRU, "user+owner", userOwner, 2, onlyPresent, c08SweepAlways)
 	} else {
 		add(lru, "user", c08AlphaUser|1<<c08OpFlush1, 6, both, c08SweepBlocks)
 		add(lru, "owner", c08AlphaOwner|1<<c08OpFlush1, 6, both, c08SweepBlocks)
@@ -494,12 +510,12 @@ func TestVerif_C08(t *testing.T) {
 		add(lru, "owner", c08AlphaOwner|1<<c08OpFlush1, 6, both, c08SweepAlways)
 		add(off, "user", c08AlphaUser|1<<c08OpFlush1, 6, both, c08SweepEnd)
 		add(off, "owner", c08AlphaOwner|1<<c08OpFlush1, 6, both, c08SweepEnd)
-		add(realLRU, "user+owner", userOwner, 3, []bool{true}, c08SweepAlways)
+		add(realLRU, "user+owner", userOwner, 3, onlyPresent, c08SweepAlways)
 		add(lru, "full", c08AlphaFull, 5, both, c08SweepBlocks)
 		add(lru, "full", c08AlphaFull, 5, both, c08SweepAlways)
 		add(off, "full", c08AlphaFull, 5, both, c08SweepEnd)
-		add(lru, "user", c08AlphaUser, 7, []bool{true}, c08SweepBlocks)
-		add(lru, "owner", c08AlphaOwner, 7, []bool{true}, c08SweepBlocks)
+		add(lru, "user", c08AlphaUser, 7, onlyPresent, c08SweepBlocks)
+		add(lru, "owner", c08AlphaOwner, 7, onlyPresent, c08SweepBlocks)
 	}
 	maxDepth := 0
 	var cov ve.Coverage
